@@ -69,6 +69,7 @@ type FuncResult struct {
 	BindErr  string // non-empty: the function could not be brought into the subset
 	Contract *Contract
 	Trusted  bool
+	need     *needField
 }
 
 func instSuffix(inst map[string]string) string {
@@ -96,8 +97,32 @@ func shortKey(key string) string {
 	return k
 }
 
-// verifyFunction generates all obligations for one contract instance.
-func verifyFunction(w *World, specs *Specs, ct *Contract, inst map[string]string) (res *FuncResult) {
+// verifyFunction generates all obligations for one contract instance. Generation runs twice: the
+// first pass materialises every struct field and records which ones are touched; the second pass
+// declares struct sorts with only those fields (the rest of each struct is one opaque component,
+// so equality stays sound), which keeps the SMT datatypes small.
+func verifyFunction(w *World, specs *Specs, ct *Contract, inst map[string]string) *FuncResult {
+	res := verifyFunctionOnce(w, specs, ct, inst, nil)
+	if res.Ctx == nil || res.BindErr != "" {
+		return res
+	}
+	keep := res.Ctx.sorts.used
+	for iter := 0; iter < 5; iter++ {
+		r2 := verifyFunctionOnce(w, specs, ct, inst, keep)
+		if r2.need == nil {
+			return r2
+		}
+		m := keep[r2.need.sort]
+		if m == nil {
+			m = map[string]bool{}
+			keep[r2.need.sort] = m
+		}
+		m[r2.need.field] = true
+	}
+	return res // pruning did not converge: fall back to the unpruned encoding
+}
+
+func verifyFunctionOnce(w *World, specs *Specs, ct *Contract, inst map[string]string, keep map[string]map[string]bool) (res *FuncResult) {
 	name := shortKey(ct.Key) + instSuffix(inst)
 	res = &FuncResult{Name: name, Key: ct.Key, Inst: inst, Contract: ct}
 	src := w.FuncByName(ct.PkgPath, ct.Name)
@@ -106,6 +131,7 @@ func verifyFunction(w *World, specs *Specs, ct *Contract, inst map[string]string
 		return res
 	}
 	c := newCtx(w, specs, name)
+	c.sorts.keep = keep
 	c.contract = ct
 	res.Ctx = c
 	defer func() {
@@ -115,6 +141,8 @@ func verifyFunction(w *World, specs *Specs, ct *Contract, inst map[string]string
 				res.BindErr = e.msg
 			case specFail:
 				res.BindErr = "contract error: " + e.msg
+			case needField:
+				res.need = &e
 			default:
 				panic(r)
 			}
